@@ -463,6 +463,8 @@ pub fn gen(rng: &mut Rng, tier: Tier, out: &mut Vec<String>) {
     for k in 0..3 {
         out.push(format!("objmiss {k}"));
     }
+    // one file of more than 1 MiB (70 000+ vertex lines): size limits of the buffered readers
+    out.push(format!("objbig {} {}", h64(rng.u64()), 70_000 + rng.below(3000)));
     // every single byte, and every byte as an item
     for b in 0..=255u8 {
         out.push(format!("obj byte {}", hex_bytes(&[b])));
@@ -639,6 +641,29 @@ pub fn run(t: &[&str]) -> String {
             let r = load_obj(&path);
             let _ = std::fs::remove_file(&path);
             render(r, true)
+        }
+        // a LARGE well-formed file (`nv` vertex lines, > 1 MiB, faces over the first and the last vertices) built
+        // from the seed: parse_obj on the bytes, read_obj from a slice reader and load_obj from a file must all
+        // return the same builder with all `nv` vertices. Implementation against itself (the model is not run).
+        "objbig" => {
+            let mut rng = Rng::new(pu64h(t[1]));
+            let nv: usize = t[2].parse().unwrap();
+            let mut text = String::with_capacity(nv * 24);
+            for i in 0..nv {
+                text += &format!("v {}.{:03} {} -{}.5\n", i % 997, rng.below(1000), i, rng.below(100));
+            }
+            for k in 0..50usize {
+                text += &format!("f {} {} {}\n", 1 + k, nv - k, 1 + (k * 7919) % nv);
+            }
+            let bytes = text.into_bytes();
+            let a = render(parse_obj(bytes.iter().copied()), false);
+            let b = render(read_obj(&bytes[..]), false);
+            let path = scratch_file();
+            std::fs::write(&path, &bytes).expect("write temp file");
+            let c = render(load_obj(&path), false);
+            let _ = std::fs::remove_file(&path);
+            let head = |s: &str| s.split(' ').take(3).collect::<Vec<_>>().join(" ");
+            format!("{} | {} | {} | {} {}", head(&a), head(&b), head(&c), (a == b) as u8, (a == c) as u8)
         }
         // a path that does not exist
         "objmiss" => {
